@@ -165,7 +165,10 @@ def stage_popen(ctx, stats, sigs):
         script = mk_script(rng, letters, [b'abc', b'x' * 1500, b'0123456789' * 300, b'\xff\x00\r\n', b'y' * 5000])
         size = rng.choice([1, 7, 100, 2000])
         sizes = [size] * rng.choice([3, 6, 12])
-        res = T.run_popen(script, sizes, timeout=rng.choice([0, 0.01, 0.05]))
+        adv = 0 if it % 2 else rng.choice([1, 2, 2, 3])      # half of the runs: the reader thread overtakes read_nonblocking right after it found the queue empty
+        if it == 0:
+            letters, script, size, sizes, adv = 'WE', [('W', b'last words'), ('E',)], 100, [100] * 4, 2
+        res = T.run_popen(script, sizes, timeout=rng.choice([0, 0.01, 0.05]), adversarial=adv)
         got = b''.join(o[1] for o in res['outs'] if o[0] == 'd') + b''.join(res['tail'])
         sigs.add(('popen', letters, size, len(res['written']) > 1024))
         msg = None
@@ -180,7 +183,7 @@ def stage_popen(ctx, stats, sigs):
             msg = 'EOF never reported after the child exited'
         if msg:
             common.report(ctx, 'popen/' + msg.split(' ')[0], 'popen transport, script %s sizes %s: %s' % (
-                [(a[0], len(a[1]) if len(a) > 1 else 0) for a in script], sizes[:3], msg), dict(script=letters, size=size))
+                [(a[0], len(a[1]) if len(a) > 1 else 0) for a in script], sizes[:3], msg), dict(script=letters, size=size, thread_overtakes_after_empty_queue=adv))
             break
     stats['popen_runs'] = n
 
@@ -233,7 +236,7 @@ def run(ctx):
         assumptions=['Linux pty semantics: data written before the slave side closes stays readable; read on a hung-up empty master gives EIO',
                      'a blocking waitpid on a child that closed its terminal but lives on is forced to finish by the harness (that is the C05 known finding) '
                      'and such runs are excluded from the model comparison',
-                     'PopenSpawn reader-thread timing is not scheduled: only stream-level facts are judged there'])
+                     'PopenSpawn: the reader thread is scheduled at one point only (it may overtake read_nonblocking right after the queue was found empty); otherwise stream-level facts are judged'])
 
 
 def replay(ctx, path):
